@@ -290,6 +290,18 @@ func (sc *specCtx) resolveName(name string) (types.Object, bool) {
 			}
 		}
 	}
+	if !ok && sc.fr != nil && sc.fr.fn != nil && sc.fr.fn != sc.u.renameFn() {
+		// a clause of a callee's contract evaluated at a call site: the names are the callee's, and so are the
+		// renames (a parameter of the callee renamed since the baseline)
+		if r := sc.u.eng.renames(sc.fr.fn); r != nil {
+			if nw, has := r.old2new[name]; has {
+				obj, ok = sc.lookupLocal(nw)
+				if ok {
+					sc.u.abstractions[fmt.Sprintf("contract name %q of %s resolved to its renamed parameter %q (rename repair against the baseline)", name, funcKey(sc.fr.fn), nw)] = true
+				}
+			}
+		}
+	}
 	return obj, ok
 }
 
@@ -324,6 +336,13 @@ func (sc *specCtx) ident(name string, subs map[string]SpecExpr) Value {
 	obj, ok := sc.resolveName(name)
 	if !ok {
 		sc.errorf("unknown name %q in %q (at %v valid=%v)", name, sc.c.Text, sc.u.eng.root.Fset.Position(sc.pos), sc.pos.IsValid())
+	}
+	if obj.Name() != name {
+		// resolved through a rename: where the clause is evaluated with values bound by name (a callee's clause
+		// at a call site binds the callee's parameters to the arguments), the binding is under the new name
+		if v, ok := sc.env[obj.Name()]; ok {
+			return v
+		}
 	}
 	switch o := obj.(type) {
 	case *types.Var:
